@@ -208,3 +208,72 @@ func TempDir() string {
 
 // Settle lets every other goroutine run until it has finished or is blocked (natively: a short sleep).
 func Settle() { time.Sleep(100 * time.Millisecond) }
+
+// Branch-free Boolean and selection helpers: under the engine they build one term instead of forking
+// the exploration at every short-circuit; natively they are ordinary functions.
+
+func And(xs ...bool) bool {
+	for _, x := range xs {
+		if !x {
+			return false
+		}
+	}
+	return true
+}
+
+func Or(xs ...bool) bool {
+	for _, x := range xs {
+		if x {
+			return true
+		}
+	}
+	return false
+}
+
+func Implies(a, b bool) bool { return !a || b }
+
+func Ite32(c bool, a, b int32) int32 {
+	if c {
+		return a
+	}
+	return b
+}
+
+func Ite8(c bool, a, b int8) int8 {
+	if c {
+		return a
+	}
+	return b
+}
+
+// Sel8 returns arr[i] (0 if i is out of range) without forking on a symbolic index.
+func Sel8(arr []int8, i int32) int8 {
+	if i < 0 || int(i) >= len(arr) {
+		return 0
+	}
+	return arr[i]
+}
+
+// SelBool returns arr[i] (false if out of range).
+func SelBool(arr []bool, i int32) bool {
+	if i < 0 || int(i) >= len(arr) {
+		return false
+	}
+	return arr[i]
+}
+
+// AssertAll asserts every condition; under the engine the conjunction is decided with one query and,
+// if it can fail, the failing conjunct's label is reported.
+func AssertAll(conds []bool, labels []string, prefix string) {
+	for i, c := range conds {
+		Assert(c, prefix+labels[i])
+	}
+}
+
+// AssumeAll assumes every condition (kept as separate constraints, so that unrelated ones can be
+// left out of later solver queries).
+func AssumeAll(conds []bool) {
+	for _, c := range conds {
+		Assume(c)
+	}
+}
